@@ -1548,7 +1548,9 @@ class ZMatrix(TwoPortMatrix):
     @classmethod
     def Pisection(cls, Z1, Z2, Z3):
 
-        Za, Zb, Zc = DeltaWye(Z1, Z2, Z3)
+        # Delta (Z1 across port 1, Z2 between the ports, Z3 across port 2)
+        # to wye (Za at port 1, Zb in the common leg, Zc at port 2).
+        Zc, Zb, Za = WyeDelta(Z1, Z2, Z3)
         return cls.Tsection(Za, Zb, Zc)
 
 
@@ -3530,11 +3532,14 @@ class TSection(TwoPortThing):
 
     def Pisection(self):
 
-        ZV = WyeDelta(self.args[0].Z, self.args[1].Z, self.args[2].Z)
-        VV = WyeDelta(self.args[0].V, self.args[1].V, self.args[2].V)
-        OPV = [(ZV1 + VV1).cpt() for ZV1, VV1 in zip(ZV, VV)]
+        if any(arg.has_independent_source for arg in self.args):
+            raise ValueError('Cannot convert a T section with sources')
 
-        return PiSection(*OPV)
+        # Wye (Za at port 1, Zb in the common leg, Zc at port 2) to
+        # delta (Z1 across port 1, Z2 between the ports, Z3 across port 2).
+        Z3, Z2, Z1 = DeltaWye(self.args[0].Z, self.args[1].Z, self.args[2].Z)
+
+        return PiSection(*[ZV1.cpt() for ZV1 in (Z1, Z2, Z3)])
 
 
 class TwinTSection(TwoPortThing):
@@ -3629,10 +3634,14 @@ class PiSection(TwoPortThing):
 
     def Tsection(self):
 
-        ZV = DeltaWye(self.args[0].Z, self.args[1].Z, self.args[2].Z)
-        VV = DeltaWye(self.args[0].V, self.args[1].V, self.args[2].V)
-        OPV = [(ZV1 + VV1).cpt() for ZV1, VV1 in zip(ZV, VV)]
-        return TSection(*OPV)
+        if any(arg.has_independent_source for arg in self.args):
+            raise ValueError('Cannot convert a Pi section with sources')
+
+        # Delta (Z1 across port 1, Z2 between the ports, Z3 across port 2)
+        # to wye (Za at port 1, Zb in the common leg, Zc at port 2).
+        Zc, Zb, Za = WyeDelta(self.args[0].Z, self.args[1].Z, self.args[2].Z)
+
+        return TSection(*[ZV1.cpt() for ZV1 in (Za, Zb, Zc)])
 
 
 class LSection(TwoPortThing):
